@@ -135,6 +135,13 @@ def base(qual, is_flusher, params=()):
         st.wr(selfv, f, st.sym_obj(f.strip('_'), c))
     w = st.sym_obj('wrapped', 'TapeCassette', False); st.wr(selfv, 'wrapped_tape_cassette', w)
     st.g.update(requested=fresh('req', SeqV), executed=fresh('exe', SeqV), inflight=fresh('inf', SeqV), lock_held=False)
+    if not is_flusher:
+        # contract of _flush_recording, requires: called on the flusher thread only (A11: one flusher).  It is what keeps the request order
+        # (one executor) and what keeps callers from waiting for the wrapped storage -- a caller-side call is a violated precondition.
+        def c_flush_foreign(ex_, s, args, kw, node_, star, dstar):
+            ex_.obligations.append(('storage_operations_are_executed_by_the_flusher_thread_only', s.copy(), z3.BoolVal(False), ('normal',)))
+            return [(s, ('val', NONE))]
+        ex.contracts['AsyncRecordOnlyTapeCassette._flush_recording'] = c_flush_foreign
     fr = {'self': selfv}
     for p in params:
         fr[p] = fresh(p)
